@@ -2,6 +2,7 @@
 import Stab.Lemmas.EngineBasic
 import Stab.Lemmas.EngineClaim
 import Stab.Lemmas.EngineLive2
+import Stab.Lemmas.EngineCancel
 namespace Stab.Props.C05
 open Stab Stab.Engine
 /-- A workflow with a TERMINAL stage is never reported SUCCEEDED by `_determine_final_status`; it is TERMINAL. -/
@@ -92,14 +93,23 @@ theorem no_claim_after_finish (c : Cfg) (s : State) (row : Row) (i : Nat) (e : E
     message, every startable stage a StartStage, every failed or fully completed workflow a CompleteWorkflow. -/
 theorem quiescent_is_final (c : Cfg) (hc : PlainCfg c) (ops : List Op) (hd : DeliverOnly ops)
     (hq : (run c ops).queue = []) : (run c ops).wfStatus.isComplete = true :=
-  live_quiescent_final c hc _ (run_live c hc ops hd) hq
+  plain_drained_is_final c hc ops (fun op hop => Or.inl (hd op hop)) hq
+
+/-- the same with cancel requests arriving at any moment of the schedule (before the start, while stages run, after the
+    end): the invariant `Live` carries the run up to the delivery that accepts the cancel, `CancInv` (C17) from there on -/
+theorem quiescent_is_final_with_cancel (c : Cfg) (hc : PlainCfg c) (ops : List Op) (hd : DeliverOrCancel ops)
+    (hq : (run c ops).queue = []) : (run c ops).wfStatus.isComplete = true :=
+  plain_drained_is_final c hc ops hd hq
 
 /-- … and while messages are pending in a non-final workflow none of its RUNNING stages is orphaned: each has its
     one token message in the queue (so "no handler running and queue empty" cannot coexist with a RUNNING stage). -/
-theorem running_stage_has_its_message (c : Cfg) (hc : PlainCfg c) (ops : List Op) (hd : DeliverOnly ops) (i : Nat)
-    (hi : i < c.n) (hw : (run c ops).wfStatus.isComplete = false) (hr : ((run c ops).stage i).status = .running) :
+theorem running_stage_has_its_message (c : Cfg) (hc : PlainCfg c) (ops : List Op) (hd : DeliverOrCancel ops) (i : Nat)
+    (hi : i < c.n) (hnc : (run c ops).canceled = false) (hw : (run c ops).wfStatus.isComplete = false)
+    (hr : ((run c ops).stage i).status = .running) :
     ∃ x ∈ (run c ops).queue, isTok i x.msg = true := by
-  rcases (run_live c hc ops hd).cases with h1 | h1 | h1
+  rcases run_live_or_canceled c hc ops hd with hcan | hlive
+  · rw [hcan] at hnc; cases hnc
+  rcases hlive.cases with h1 | h1 | h1
   · rw [h1] at hw; cases hw
   · rw [(h1.pristine i hi).1] at hr; cases hr
   · obtain ⟨k, w, _, htk, hw', _⟩ := (h1.stages i hi).busy hr
